@@ -6,7 +6,7 @@ CONSTANTS
   Clients0 = {"b", "c"}
   MaxRemotes = {2}
   Timeouts = {2}
-  MaxDepth = 7
+  MaxDepth = 8
   MaxSid = 3
   SimMode = FALSE
 CONSTRAINT Bound
